@@ -3950,3 +3950,30 @@ impl fmt::Debug for PublishConfig {
         }
     }
 }
+
+#[cfg(libp2p_verif)]
+impl<D, F> Behaviour<D, F>
+where
+    D: DataTransform + Send + 'static,
+    F: TopicSubscriptionFilter + Send + 'static,
+{
+    /// Verification hook: runs one heartbeat, as `poll` does when the heartbeat timer fires.
+    pub fn verif_heartbeat(&mut self) {
+        self.heartbeat()
+    }
+
+    /// Verification hook: the fanout set of `topic` (`None` when there is no fanout entry).
+    pub fn verif_fanout(&self, topic: &TopicHash) -> Option<Vec<PeerId>> {
+        self.fanout.get(topic).map(|p| p.iter().copied().collect())
+    }
+
+    /// Verification hook: `BackoffStorage::is_backoff_with_slack` for (`topic`, `peer`).
+    pub fn verif_is_backoff(&self, topic: &TopicHash, peer: &PeerId) -> bool {
+        self.backoffs.is_backoff_with_slack(topic, peer)
+    }
+
+    /// Verification hook: the configuration this behaviour was built with.
+    pub fn verif_config(&self) -> &Config {
+        &self.config
+    }
+}
